@@ -6,6 +6,8 @@ d = json.load(open(sys.argv[1]))
 r = d['replay']
 if d['kind'] == 'scc':
     msg = c19_run.run_scc(r['n'], r['edges'], r['key_order'], r['rev'])
+elif d['kind'] == 'nthistory':
+    msg = c19_run.run_ntgraph_history(r['spec'], r['mutation'])
 else:
     msg = c19_run.run_ntgraph(r['spec'])
 print('replay:', msg)
